@@ -124,6 +124,13 @@ def main(tier):
             for pos in range(len(text) + 1):
                 for tk in (",x", ",y", ",", ")", "(", "#", "=", ":", "{", "}", '"s"', "a", "1"):
                     add(text[:pos] + tk + text[pos:], {"kind": "token-insertion", "name": name})
+    # a file parses the same whatever else the project holds: every corpus file and statement form once more as a file that is
+    # imported by an entry file which starts with a block comment (the parser's state is shared by all files of a project)
+    HEAD = '/* a header comment, longer than most statements of the corpus are */\n.import * as q from "lib.asm"\nnop\n'
+    for name, text in corp:
+        cid = len(cases) + 1
+        cases.append({"id": cid, "text": HEAD, "files": {"lib.asm": text}, "render": "lib.asm"})
+        meta[cid] = {"kind": "imported", "name": name, "text": text}
     # every layout/case variant of every statement form (the variant space of spec/Layout, enumerated by TLC)
     sys.path.insert(0, os.path.join(os.path.dirname(os.path.abspath(__file__)), "..", "C08"))
     import importlib.util
